@@ -94,14 +94,25 @@ fn write_workspace(root: &Path, dep_lists: &[Vec<usize>], dangling: Option<usize
     for (i, deps) in dep_lists.iter().enumerate() {
         let d = root.join(format!("dir{}", (i * 7) % 10)).join(format!("bp{i}"));
         std::fs::create_dir_all(&d).unwrap();
-        let composite = !deps.is_empty() || dangling == Some(i) || i % 2 == 1;
-        if composite {
+        let has_deps = !deps.is_empty() || dangling == Some(i);
+        // node 2 (when it has dependencies) is a libcnb.rs buildpack (component descriptor + Cargo.toml)
+        // that carries its own package.toml with libcnb: dependencies; all other nodes with
+        // dependencies are composites
+        let libcnb_with_package_toml = has_deps && i % 3 == 2;
+        let composite = !libcnb_with_package_toml && (has_deps || i % 2 == 1);
+        if libcnb_with_package_toml {
+            std::fs::write(d.join("buildpack.toml"), format!("api = \"0.10\"\n\n[buildpack]\nid = \"{}\"\nversion = \"0.0.1\"\n\n[[targets]]\nos = \"linux\"\n", id(i))).unwrap();
+            std::fs::write(d.join("Cargo.toml"), "[package]\nname = \"x\"\nversion = \"0.0.0\"\n").unwrap();
+        }
+        if composite || libcnb_with_package_toml {
+            if composite {
             let mut t = format!("api = \"0.10\"\n\n[buildpack]\nid = \"{}\"\nversion = \"0.0.1\"\n\n[[order]]\n", id(i));
             let group: Vec<String> = if deps.is_empty() { vec!["ext/z".into()] } else { deps.iter().map(|j| id(*j)).collect() };
             for g in group {
                 t.push_str(&format!("\n[[order.group]]\nid = \"{g}\"\nversion = \"0.0.1\"\n"));
             }
             std::fs::write(d.join("buildpack.toml"), t).unwrap();
+            }
             let mut p = String::from("[buildpack]\nuri = \".\"\n");
             // non-libcnb dependencies first and between the libcnb ones: they never become edges
             // and must not hide the libcnb: entries that follow them
